@@ -277,6 +277,110 @@ def run_dd_restat(ctx, focus, nscen, salt=11):
     return scenarios
 
 
+def make_dd_deps_history(g, sc):
+    """A statement served by a dyndep file that also has discovered dependencies of its own (depfile / deps log).  What the
+    scan finds out about those - record missing, or older than the output because the command failed after rewriting it, or
+    the depfile gone - must survive the second look ninja takes at the statement after the dyndep file, regenerated in the
+    same build, has been loaded."""
+    r = g.r
+    cur = copy.deepcopy(sc)
+    served = [s for s in cur["stmts"] if s["dd"] and s["deps"] != "none" and s["dyndep"] and not s["dyndep_on_rule"]]
+    if not served:
+        return None
+    d = r.choice(served)
+    if r.random() < 0.7:
+        # the dyndep file order-only (a regenerated file that is a real input makes the statement out of date by itself)
+        d["iins"] = [x for x in d["iins"] if x != d["dyndep"]]
+        if d["dyndep"] not in d["oins"]:
+            d["oins"].append(d["dyndep"])
+    nested = "q_%s.h" % d["id"]
+    if nested not in cur["sources"]:
+        return None
+    steps, meta = [], []
+
+    def add(step, **m):
+        steps.append(step)
+        m["sc"] = copy.deepcopy(cur)
+        meta.append(m)
+
+    def b(**kw):
+        st = g.build_step(cur)
+        st["targets"] = []
+        st.update(kw)
+        return st
+    first = b()
+    add(first, kind="build", first=True)
+    add(dict(first, sched={"mode": "prng", "seed": r.randint(1, 10 ** 6)}), kind="rebuild")
+    for _ in range(r.randint(1, 2)):
+        how = r.choice(("failed-after-writing", "failed-after-writing", "rmlog", "rm_depfile"))
+        descs = []
+        if how == "failed-after-writing":
+            cur["sources"][nested] += "// e%d\n" % r.randint(0, 10 ** 6)
+            add({"op": "write", "path": nested, "content": cur["sources"][nested]}, kind="change", desc=("edit", nested))
+            f = b(k=r.choice((1, 0)))
+            f["faults"] = {d["outs"][0]: {"exit": r.choice((1, 2, 255)), "touch": True}}
+            add(f, kind="build", faulty=True, changes=[("edit", nested)])
+            if r.random() < 0.5:
+                cur["sources"][nested] += "// e%d\n" % r.randint(0, 10 ** 6)
+                add({"op": "write", "path": nested, "content": cur["sources"][nested]}, kind="change", desc=("edit", nested))
+                descs.append(("edit", nested))
+        elif how == "rmlog":
+            add({"op": "rmlog", "which": "ninja_deps"}, kind="change", desc=("rmlog", "ninja_deps"))
+            descs.append(("rmlog", "ninja_deps"))
+        else:
+            if d["deps"] != "depfile" or not d["depfile"]:
+                continue
+            add({"op": "rm", "path": d["depfile"]}, kind="change", desc=("rm_depfile", d["depfile"]))
+            descs.append(("rm_depfile", d["depfile"]))
+        # ... and the dyndep file has to be made again in the next build
+        scan = next((s_ for s_ in cur["stmts"] if s_["kind"] == "scan" and d["dyndep"] in s_["outs"]), None)
+        trig = None
+        if scan is not None:
+            cfgs = [x for x in scan["ins"] if x.startswith("ddscan")]
+            trig = r.choice(cfgs) if cfgs else None
+        if trig is None:
+            return None
+        add({"op": "touch", "path": trig}, kind="change", desc=("touch", trig))
+        descs.append(("touch", trig))
+        y = b(j=r.choice((1, 1, 2, 3)))
+        add(y, kind="build", changes=descs)
+        add(dict(y, sched={"mode": "prng", "seed": r.randint(1, 10 ** 6)}), kind="rebuild")
+    return cur, steps, meta
+
+
+def run_dd_deps(ctx, focus, nscen, salt=17):
+    rng = random.Random(ctx.seed * 7919 + {"C01": 1, "C02": 2, "C03": 3}.get(focus, 0) + salt * 104729)
+    scenarios, metas = [], {}
+    for n in range(nscen):
+        g = gen.Gen(random.Random(rng.randint(0, 2 ** 60)), size=rng.randint(1, 4),
+                    feat=dict(dyndep=1.0, dd_deps=0.9, restat=0.15, phony=0.15, deps=0.3, generator=0.0, chain=0.7, early=0.0))
+        sc = g.scenario("%s-%d-ddd-%d" % (focus, ctx.seed, n))
+        h = make_dd_deps_history(g, sc)
+        if h is None:
+            continue
+        cur0, steps, meta = h
+        scn = simlib.scenario_json(meta[0]["sc"], steps)
+        scenarios.append(scn)
+        metas[scn["id"]] = meta
+    judge = HistoryJudge(ctx, focus)
+
+    def handler(scn, results, err):
+        if results is None:
+            ctx.inconclusive += 1
+            ctx.count("nsim_died")
+            return
+        try:
+            judge.judge(scn, metas[scn["id"]], results)
+            ctx.count("dyndep_plus_own_deps_histories")
+        except Exception:
+            import traceback
+            traceback.print_exc()
+            ctx.inconclusive += 1
+            ctx.count("judge_exceptions")
+    simlib.run_scenarios(scenarios, handler)
+    return scenarios
+
+
 def make_late_deps_history(g, sc):
     """A generated header that other statements know from their recorded dependencies gets `deps =` itself only later (the
     manifest is edited), so that in the deps log its consumers come first; then the logs grow until ninja recompacts them
@@ -634,27 +738,28 @@ def replay(ctx, focus, path):
 
 def run_incremental(ctx, focus, nscen, size_range=(3, 9), rounds=(2, 5), feat=None, salt=0, **hopts):
     rng = random.Random(ctx.seed * 7919 + {"C01": 1, "C02": 2, "C03": 3}.get(focus, 0) + salt * 104729)
-    scenarios, metas = [], {}
-    for n in range(nscen):
-        g = gen.Gen(random.Random(rng.randint(0, 2 ** 60)), size=rng.randint(*size_range), feat=feat)
-        sc = g.scenario("%s-%d-%d-%d" % (focus, ctx.seed, salt, n))
-        steps, meta = make_history(g, sc, rng.randint(*rounds), **hopts)
-        scn = simlib.scenario_json(sc, steps)
-        scenarios.append(scn)
-        metas[scn["id"]] = meta
     judge = HistoryJudge(ctx, focus)
+    BATCH = 2000       # scenarios (and what the judge needs about them) are made, run, judged and dropped in batches
+    for base in range(0, nscen, BATCH):
+        scenarios, metas = [], {}
+        for n in range(base, min(nscen, base + BATCH)):
+            g = gen.Gen(random.Random(rng.randint(0, 2 ** 60)), size=rng.randint(*size_range), feat=feat)
+            sc = g.scenario("%s-%d-%d-%d" % (focus, ctx.seed, salt, n))
+            steps, meta = make_history(g, sc, rng.randint(*rounds), **hopts)
+            scn = simlib.scenario_json(sc, steps)
+            scenarios.append(scn)
+            metas[scn["id"]] = meta
 
-    def handler(scn, results, err):
-        if results is None:
-            ctx.inconclusive += 1
-            ctx.count("nsim_died")
-            return
-        try:
-            judge.judge(scn, metas[scn["id"]], results)
-        except Exception as e:
-            import traceback
-            traceback.print_exc()
-            ctx.inconclusive += 1
-            ctx.count("judge_exceptions")
-    simlib.run_scenarios(scenarios, handler)
-    return scenarios
+        def handler(scn, results, err):
+            if results is None:
+                ctx.inconclusive += 1
+                ctx.count("nsim_died")
+                return
+            try:
+                judge.judge(scn, metas[scn["id"]], results)
+            except Exception as e:
+                import traceback
+                traceback.print_exc()
+                ctx.inconclusive += 1
+                ctx.count("judge_exceptions")
+        simlib.run_scenarios(scenarios, handler)
